@@ -781,6 +781,10 @@ func (ctx *Context) evaluate() {
 					val = stack[e.top-num+index]
 				}
 				outStr += val.ToString()
+				if len(outStr) > maxStringLength {
+					e.Error = errors.New("不能一次性创建过长的字符串")
+					return
+				}
 			}
 
 			e.top -= num
